@@ -1523,4 +1523,104 @@ theorem pick_greedy {n nG : Nat} {pairs : List Pair} {st : St} {m : Int} {g : Na
   have hu' := h.util g' hg' hnc'
   exact hall _ (List.mem_of_getElem? hu')
 
+/-! ### file assignment -/
+
+/-- invariant of the running maximum: `best = some (j, m)` with `j < i`,
+`m = census[j]`, every earlier entry `≤ m`, every entry before `j` `< m` -/
+theorem assignFileGo_spec (all : List Nat) : ∀ (cs : List Nat) (i : Nat) (best : Option (Nat × Nat))
+    (f m : Nat), all.drop i = cs →
+    (∀ j mj, best = some (j, mj) → j < i ∧ all[j]? = some mj ∧
+      (∀ k, k < i → ∀ v, all[k]? = some v → v ≤ mj) ∧
+      (∀ k, k < j → ∀ v, all[k]? = some v → v < mj)) →
+    (best = none → i = 0) →
+    assignFileGo cs i best = some (f, m) →
+    all[f]? = some m ∧ (∀ (k v : Nat), all[k]? = some v → v ≤ m) ∧
+      (∀ k, k < f → ∀ v, all[k]? = some v → v < m) := by
+  intro cs
+  induction cs with
+  | nil =>
+    intro i best f m hdrop hinv h0 h
+    simp only [assignFileGo] at h
+    subst h
+    obtain ⟨hj, hget, hle, hlt⟩ := hinv f m rfl
+    have hlen : all.length ≤ i := by
+      have := congrArg List.length hdrop
+      simp only [List.length_drop, List.length_nil] at this
+      omega
+    refine ⟨hget, ?_, hlt⟩
+    intro k v hk
+    have : k < all.length := by
+      rcases Nat.lt_or_ge k all.length with h | h
+      · exact h
+      · rw [List.getElem?_eq_none h] at hk; cases hk
+    exact hle k (by omega) v hk
+  | cons c cs ih =>
+    intro i best f m hdrop hinv h0 h
+    have hci : all[i]? = some c := by
+      have := congrArg (fun l => l[0]?) hdrop
+      simpa [List.getElem?_drop] using this
+    have hdrop' : all.drop (i + 1) = cs := by
+      have := congrArg List.tail hdrop
+      simpa [List.tail_drop] using this
+    cases best with
+    | none =>
+      simp only [assignFileGo] at h
+      have hi0 := h0 rfl
+      subst hi0
+      refine ih 1 (some (0, c)) f m hdrop' ?_ (by intro hh; cases hh) h
+      intro j mj hb
+      simp only [Option.some.injEq, Prod.mk.injEq] at hb
+      obtain ⟨rfl, rfl⟩ := hb
+      refine ⟨by omega, hci, ?_, ?_⟩
+      · intro k hk v hv
+        have : k = 0 := by omega
+        subst this
+        rw [hci] at hv; cases hv; exact Nat.le_refl _
+      · intro k hk; omega
+    | some jm =>
+      obtain ⟨j, mj⟩ := jm
+      obtain ⟨hj, hget, hle, hlt⟩ := hinv j mj rfl
+      simp only [assignFileGo] at h
+      split at h
+      · rename_i hlt'
+        refine ih (i + 1) (some (i, c)) f m hdrop' ?_ (by intro hh; cases hh) h
+        intro j' mj' hb
+        simp only [Option.some.injEq, Prod.mk.injEq] at hb
+        obtain ⟨rfl, rfl⟩ := hb
+        refine ⟨by omega, hci, ?_, ?_⟩
+        · intro k hk v hv
+          rcases Nat.lt_or_ge k i with hk' | hk'
+          · have := hle k hk' v hv; omega
+          · have : k = i := by omega
+            subst this
+            rw [hci] at hv; cases hv; exact Nat.le_refl _
+        · intro k hk v hv
+          have := hle k hk v hv; omega
+      · rename_i hnlt
+        refine ih (i + 1) (some (j, mj)) f m hdrop' ?_ (by intro hh; cases hh) h
+        intro j' mj' hb
+        simp only [Option.some.injEq, Prod.mk.injEq] at hb
+        obtain ⟨rfl, rfl⟩ := hb
+        refine ⟨by omega, hget, ?_, hlt⟩
+        intro k hk v hv
+        rcases Nat.lt_or_ge k i with hk' | hk'
+        · exact hle k hk' v hv
+        · have : k = i := by omega
+          subst this
+          rw [hci] at hv; cases hv; omega
+
+theorem assignFile_spec {census : List Nat} {f : Nat} (h : assignFile census = some f) :
+    ∃ m, census[f]? = some m ∧ (∀ (k v : Nat), census[k]? = some v → v ≤ m) ∧
+      (∀ k, k < f → ∀ v, census[k]? = some v → v < m) := by
+  unfold assignFile at h
+  cases hg : assignFileGo census 0 none with
+  | none => rw [hg] at h; cases h
+  | some fm =>
+    obtain ⟨f', m⟩ := fm
+    rw [hg] at h
+    simp only [Option.map_some, Option.some.injEq] at h
+    subst h
+    exact ⟨m, assignFileGo_spec census census 0 none f' m (by simp)
+      (by intro j mj hh; cases hh) (fun _ => rfl) hg⟩
+
 end CTM.Selection
